@@ -7,6 +7,7 @@ import Mustache.Driver.Events
 import Mustache.Driver.Dispatch
 import Mustache.Driver.Layout
 import Mustache.Driver.Worlds
+import Mustache.Driver.CApi
 
 /-! Line-protocol driver: `driver <model> [args]` reads ops on stdin, prints observations. -/
 def main (args : List String) : IO UInt32 :=
@@ -20,4 +21,5 @@ def main (args : List String) : IO UInt32 :=
   | "dispatch" :: r => Mustache.Driver.Dispatch.main r
   | "layout" :: r   => Mustache.Driver.Layout.main r
   | "worlds" :: r   => Mustache.Driver.Worlds.main r
+  | "capi" :: r     => Mustache.Driver.CApi.main r
   | _ => do IO.eprintln "usage: driver <entity|world|iter|versions|systems|events|dispatch|layout|worlds>"; return 2
